@@ -76,7 +76,7 @@ FamRouteLoop ==
 Chain3Routes == IF Quick THEN FewRoutes ELSE AllRoutes
 FamChain3 ==
     {Sc(<<Root, Leaf(r1, 1, "p", "cf", "ret"), Leaf(r2, 2, "p", "cf", "ret")>>, -1, R, -1)
-        : r1 \in Chain3Routes, r2 \in Chain3Routes, R \in (IF Quick THEN {3, 4, 5} ELSE {3, 4, 5, 6})}
+        : r1 \in Chain3Routes, r2 \in Chain3Routes, R \in {3, 4, 5}}
     \cup {Sc(<<Root, Leaf(r1, 1, "p", "cf", "ret"), Mk(r2, 2, "p", "f", "for", N, "cf", "n", "ret")>>, 1, -1, -1)
         : r1 \in Chain3Routes, r2 \in Chain3Routes}
 
